@@ -85,7 +85,12 @@ def rule_castmatrix(run):
     c05.rule_back(run)
 
 
-RULES = [rule_rows, rule_siblings, rule_intarith, rule_ext, rule_widths, rule_literals, rule_castmatrix]
+def rule_multi_index(run):
+    from ..rules import shape
+    shape.run_multi_index_rule(run, "C09.d")
+
+
+RULES = [rule_rows, rule_siblings, rule_intarith, rule_ext, rule_widths, rule_literals, rule_castmatrix, rule_multi_index]
 LEVEL = "other"
 EXPLANATION = (
     "Structural agreement between the compile-time (folding) path and the run-time path of primitive operators: "
